@@ -453,7 +453,9 @@ pub fn run(ctx: &mut Ctx) {
   let mut ended_by_panic = 0u64;
   // one extra program (C03 and C04, both tiers) whose translated footprint exceeds the code cache several times
   let extra = if ctx.arg_u64("cache-pressure", 1) != 0 { 1 } else { 0 };
-  for p in 0..nprog + 2 * extra {
+  let mut jr_sites = 0u64;
+  let mut cancelled_seen = 0u64;
+  for p in 0..nprog + 4 * extra {
     if !ctx.mine(p) {
       continue;
     }
@@ -463,7 +465,14 @@ pub fn run(ctx: &mut Ctx) {
     let long_duration = p == nprog + 1;
     // ~4 block steps per routine, ~5 KiB of host code per routine: the quick tier
     // fills the 8 MiB cache about twice, the thorough tier runs the whole program
-    let steps: u64 = if pressure {
+    // every relative-jump displacement in a running program; dispatches cancelled by their own push
+    let jr_ladder = p == nprog + 2;
+    let cancelled = p == nprog + 3;
+    let steps: u64 = if jr_ladder {
+      1_700
+    } else if cancelled {
+      2_000
+    } else if pressure {
       if thorough { 45_000 } else { 14_000 }
     } else if long_duration {
       if thorough { 520 } else { 72 }
@@ -474,6 +483,10 @@ pub fn run(ctx: &mut Ctx) {
       crate::gen::pressure::cache_pressure_image()
     } else if long_duration {
       crate::gen::pressure::long_duration_image()
+    } else if jr_ladder {
+      crate::gen::pressure::jr_ladder_image()
+    } else if cancelled {
+      crate::gen::pressure::cancelled_dispatch_image(0x01)
     } else {
       make_program(&kind, seed, p)
     };
@@ -545,6 +558,12 @@ pub fn run(ctx: &mut Ctx) {
       for s in 0..steps.min(recorded_steps as u64) {
         let pc = core.registers.ip as u16;
         ctx.intent(&[p, s, pc as u64]);
+        if jr_ladder && pc >= 0x4000 && pc < 0x8000 && (pc - 0x4000) % 0x110 == 0x87 {
+          jr_sites += 1;
+        }
+        if cancelled && pc == 0 {
+          cancelled_seen += 1;
+        }
         let running = core.run_state == RunState::Run;
         if !running {
           obs.halted_steps += 1;
@@ -898,6 +917,10 @@ pub fn run(ctx: &mut Ctx) {
   ctx.count(&format!("{}:suspended-steps", tag), obs_tot.halted_steps);
   if role != "write" {
     ctx.count("steps-compared-with-interpreter-build", evaluations);
+    if extra != 0 {
+      ctx.count("relative-jump-ladder:sites-entered", jr_sites);
+      ctx.count("blocks-entered-at-0000-after-a-dispatch-cancelled-by-its-push", cancelled_seen);
+    }
     ctx.count("frame-buffer-comparisons", frames_compared);
     ctx.count("code-cache-restarts-observed", cache_restarts);
     if kind == "c03" {
